@@ -44,7 +44,7 @@ PROPS = {
         "assumptions": ["u64 overflow of chunk_index*chunk_size excluded", "serde_json round trip of the configuration is exercised (via=meta), not modelled"],
     },
     "C14": {
-        "claimed": False,
+        
         "lean_props": ["ZarrsModel.Props.C14"],
         "harness": "c14",
         "rule": "round trips (DataType::metadata_fill_value -> serde_json::to_string -> serde_json::from_slice -> fill_value_from_metadata, and ArrayBuilder -> store_metadata -> Array::open): "
